@@ -226,7 +226,20 @@ pub fn generate(lang: Lang, cfg: &Cfg, src: &str, scratch: &Path) -> crate::ts::
             Err(_) => Outcome::Empty,
         }
     } else {
-        let msg = r.stderr.lines().filter(|l| !l.contains(" INFO ")).collect::<Vec<_>>().join(" | ");
+        // `[timestamp] ERROR [cli/src/main.rs:NN] message` -> message
+        let strip = |l: &str| -> String {
+            let mut rest = l;
+            for _ in 0..2 {
+                if rest.starts_with('[') {
+                    if let Some(i) = rest.find("] ") {
+                        rest = &rest[i + 2..];
+                        rest = rest.trim_start_matches(|c: char| c.is_ascii_uppercase() || c == ' ');
+                    }
+                }
+            }
+            rest.to_string()
+        };
+        let msg = r.stderr.lines().filter(|l| !l.contains(" INFO ")).map(strip).collect::<Vec<_>>().join(" | ");
         if msg.contains("Failed to parse") || msg.contains("failed to parse") {
             Outcome::ParseErr(vec![msg])
         } else {
